@@ -168,7 +168,7 @@ def gsu_case(kind, n, pos, dele, ins, trailing_comma, multi_tok):
 GLB = {"gsu_case": gsu_case, "__name__": "harness.c03"}
 
 
-def _gsu_cond(kind, n, multi_tok, twin=False, ins_max=1, multiline=True, fixed_deletes=None):
+def _gsu_cond(kind, n, multi_tok, twin=False, ins_max=1, multiline=True, fixed_deletes=None, fixed_i0=None):
     npos = 2 * n + 3
     params = []
     for i in range(npos):
@@ -202,13 +202,15 @@ def _gsu_cond(kind, n, multi_tok, twin=False, ins_max=1, multiline=True, fixed_d
         pre.append(f"(not tc) or lex_lt({last}, {P[2 + 2 * n]})")
     if fixed_deletes is not None:
         pre.append(" and ".join(f"d{i} == {bool(b)}" for i, b in enumerate(fixed_deletes)))
+    if fixed_i0 is not None:
+        pre.append(f"i0 == {fixed_i0}")
     body = f"return gsu_case({kind!r}, {n}, [{', '.join(P)}], [{', '.join(f'd{i}' for i in range(n))}], [{', '.join(f'i{i}' for i in range(n + 1))}], tc, {multi_tok})"
-    name = f"gsu_{kind}_{n}{'_mt' if multi_tok else ''}{'_i2' if ins_max == 2 else ''}{'' if multiline else '_1line'}" + ("_d" + "".join(str(int(b)) for b in fixed_deletes) if fixed_deletes is not None else "") + ("_twin" if twin else "")
+    name = f"gsu_{kind}_{n}{'_mt' if multi_tok else ''}{'_i2' if ins_max == 2 else ''}{'' if multiline else '_1line'}" + ("_d" + "".join(str(int(b)) for b in fixed_deletes) if fixed_deletes is not None else "") + (f"_i{fixed_i0}" if fixed_i0 is not None else "") + ("_twin" if twin else "")
     glb = dict(GLB)
     glb["lex_lt"] = lex_lt
     glb["lex_le"] = lex_le
     fn = mkfn(name, params, body, glb, pre=pre, post="not _" if twin else "_")
-    return Cond(name, fn, timeout=60 if twin else 1200, twin=twin, group="gsu",
+    return Cond(name, fn, timeout=60 if twin else (2400 if fixed_deletes is not None else 1200), twin=twin, group="gsu",
                 bounds=f"{kind} with {n} elements, every {'(line, col) layout (1<=line<=50, 0<=col<=200, multi-line allowed)' if multiline else 'single-line layout (0<=col<=200)'}, every delete mask, <= {ins_max} insertion(s) at each of the {n + 1} positions, trailing comma or not, {'two-token' if multi_tok else 'one-token'} elements")
 
 
@@ -224,8 +226,11 @@ def conditions(tier):
         if not q:
             import itertools as _it
 
-            for mask in _it.product((0, 1), repeat=3):  # multi-line layouts of 3 elements: one condition per delete mask
-                conds.append(_gsu_cond(kind, 3, False, fixed_deletes=mask))
+            for mask in _it.product((0, 1), repeat=3):  # multi-line layouts of 3 elements: one condition per delete mask x first insert bit
+                for i0 in (0, 1):
+                    if kind in ("List", "Tuple") and mask[0] and i0:
+                        continue  # excluded by the callers' contract (no insertion at a deleted index)
+                    conds.append(_gsu_cond(kind, 3, False, fixed_deletes=mask, fixed_i0=i0))
             conds.append(_gsu_cond(kind, 4, False, multiline=False))
             conds.append(_gsu_cond(kind, 2, True))
     conds.append(_gsu_cond("Tuple", 2, False, twin=True))
